@@ -128,6 +128,11 @@ class State:
     def init(cls, hass):
         """Initialize State."""
         cls.hass = hass
+        #
+        # while pyscript was not set up (eg, between unload and setup) state changes were not
+        # seen, so the last notified values are stale
+        #
+        cls.notify_var_last.clear()
 
     @classmethod
     async def get_service_params(cls):
